@@ -279,8 +279,8 @@ class Battery():
             dx = x2 - x1
             dy = y2 - y1
 
-            if y1 < self.EPS and y2 < self.EPS:
-                # no energy in current linear section: stop charging
+            if y1 < self.EPS:
+                # no power available at the current SoC: nothing (more) can be transferred
                 break
 
             m = dy / dx
